@@ -12,7 +12,7 @@ Definition run_cmp (x : sexp) : option string :=
   match x with
   | SList [SAtom "cmp"; a; b] =>
       match value_of_sexp a, value_of_sexp b with
-      | Some a', Some b' => Some (show_Z (sign_of (compare a' b')))
+      | Some a', Some b' => Some (show_Z (sign_of (Lungo.Model.Compare.compare a' b')))
       | _, _ => Some bad
       end
   | SList [SAtom "echo"; a] =>
